@@ -183,6 +183,21 @@ class Models:
                 sa2 = self.seq_like(eng, a, sb.kind, st)
                 yield st, V(sb.kind, z3.Concat(sa2.term, sb.term))
                 return
+        if isinstance(a, (VTuple, VList)) and not a.items and isinstance(b, V) and isinstance(b.kind, SetK) \
+                and isinstance(op, ast.BitOr):
+            yield st, b
+            return
+        if isinstance(b, (VTuple, VList)) and not b.items and isinstance(a, V) and isinstance(a.kind, SetK):
+            if isinstance(op, (ast.BitOr, ast.Sub)):
+                yield st, a
+                return
+            if isinstance(op, ast.BitAnd):
+                yield st, V(a.kind, z3.EmptySet(a.kind.elem.sort()))
+                return
+        if isinstance(a, (VTuple, VList)) and not a.items and isinstance(b, (VTuple, VList)) and not b.items \
+                and isinstance(op, (ast.BitOr, ast.BitAnd, ast.Sub)):
+            yield st, VTuple([])
+            return
         if isinstance(a, V) and isinstance(a.kind, SetK):
             sb = eng.as_set(b, st)
             sb = V(a.kind, sb.term)
